@@ -493,6 +493,17 @@ pub fn gen_c03(rng: &mut Rng) -> E2eScript {
             }
         }
     }
+    // rarely: an item the encoder must refuse in the middle of ordinary ones, without batching: the
+    // refusal must leave no trace, the items accepted after it are owed
+    if batching.is_none() && payloads.len() >= 2 && rng.chance(1, 12) {
+        let at = rng.usize(0, payloads.len() - 1);
+        payloads.insert(at, (*rng.pick(&[1_048_577usize, 1_100_000, 1_048_600]), rng.next()));
+        for (i, p) in payloads.iter_mut().enumerate() {
+            if i != at {
+                p.0 = p.0.min(3_000);
+            }
+        }
+    }
     // rarely: far more small messages than fit into one frame, under a batch size that would take
     // them all (the batch has to be cut by its encoded size, length markers included)
     let mut batching = batching;
